@@ -74,14 +74,14 @@ PROPS = {
         "lean_module": "SplProofs.C09",
         "streams": ["C09"],
         "rule": "stream lvhist: histories of init / push / remove(i) / set / sort (3 comparators incl. one that only looks at the first byte, to observe stability) / reopen / bytes_used / "
-                "bytes_allocated over 8 element types x 4 prefix types at aligned offsets of a 16-aligned arena, capacities 0..6, initial buffers zeroed or garbage, full buffer compared after every op, "
+                "bytes_allocated over 10 element types (incl. size 12 / align 4 and size 24 / align 8) x 4 prefix types at aligned offsets of a 16-aligned arena, capacities 0..6, initial buffers zeroed or garbage, full buffer compared after every op, "
                 "shadow Vec oracle; plus the prefix-maximum histories (u8 elements, 16-bit prefix, capacity 65535/65536, length 65534 -> 65535 -> overflow); non-trivial = history with >= 2 successful and >= 1 failing op",
         "assumptions": COMMON_ASSUME + ["capacity < usize::MAX (buffers are smaller than the address space)"],
     },
     "C10": {
         "lean_module": "SplProofs.C10",
         "streams": ["C10"],
-        "rule": "stream lv: 8 element types ((1,1) (2,2) (3,1) (4,4) (8,8) (16,16) (35,1) zero-sized) x 4 prefix types (16/32/64/128-bit), buffers placed at start offsets 0..15 of a "
+        "rule": "stream lv: 10 element types ((1,1) (2,2) (3,1) (4,4) (8,8) (16,16) (35,1) zero-sized, and (12,4) (24,8) whose size is a proper multiple of the alignment) x 4 prefix types (16/32/64/128-bit), buffers placed at start offsets 0..15 of a "
                 "16-aligned arena: all-0xff buffers (the prefix type's maximum), every length 0..header+1, random buffers with capacity 0..5, slop bytes, stored length <= cap / cap+1 / "
                 "2^64..2^64+2 / 2^128-1; read-only and mutable opening compared, element address range checked against the arena, size_of incl. overflow; non-trivial = buffer at least header-sized",
         "assumptions": COMMON_ASSUME + ["element alignment <= 16 in the stream (the theorem covers every alignment up to 2^29)"],
